@@ -205,6 +205,20 @@ type TagMix struct {
 	OS8 int8   `parquet:"os8,optional,int(64)"`
 }
 
+// PtrTag: a field written through the value-level writer (the text of a UUID)
+// below an optional pointer group and inside list elements: when the pointer is
+// nil or the list empty the writer is handed an empty array and owes a null.
+type TagInner struct {
+	A int32  `parquet:"a"`
+	U string `parquet:"u,uuid"`
+}
+
+type PtrTag struct {
+	ID int64      `parquet:"id"`
+	G  *TagInner  `parquet:"g"`
+	L  []TagInner `parquet:"l"`
+}
+
 // OptElems: list elements and map values made optional by their own tags
 // (non-pointer element types: a zero element stands for null).
 type OptElems struct {
@@ -781,4 +795,5 @@ func init() {
 	register[NestedTimes]("NestedTimes")
 	register[TagMix]("TagMix")
 	register[OptElems]("OptElems")
+	register[PtrTag]("PtrTag")
 }
